@@ -543,7 +543,7 @@ def observe_factory(case):
             pos += 1
         attempts.append(tree)
         if p_none:
-            ch = explain_attempt(tree, nf.log[pos:end], md, eff, mn, mx)
+            ch = explain_attempt(tree, nf.log[pos:end], eff, eff, mn, mx)
             ok = ok and ch is not None
             choices.append(ch or [])
         pos = end
@@ -866,18 +866,19 @@ def run_generators(ctx):
     for md, mn, mx, nt in grid:
         for i in range(per):
             v = ['VAll'] if i == 0 else pick_verifier(r, md, nt)
-            arg = None if i % 4 else r.choice([None, md, r.randint(2, 6)] if md > 1 else [None, 1])
+            # explicit overrides below / at / above requirements.max_depth; 0 and None fall back
+            arg = None if i % 3 else r.choice([None, 0, 1, 2, md, max(1, md - 1), md + 1, r.randint(1, 6)])
             case = {'md': md, 'mn': mn, 'mx': mx, 'arg': arg, 'nt': nt, 'v': v, 'seed': r.randrange(10 ** 6)}
             if i % 5 == 3:
                 case['p_none'] = r.choice([0.15, 0.3, 0.5])     # a node factory that sometimes returns None
             cases.append(case)
-    # attempt limit, empty arity range, override quirks (see docs/C20.md)
+    # attempt limit, empty arity range, explicit overrides incl. 1 below requirements.max_depth and the falsy 0
     for md, mn, mx in [(1, 1, 1), (2, 1, 2), (2, 2, 2)]:
         cases.append({'md': md, 'mn': mn, 'mx': mx, 'arg': None, 'nt': 2, 'v': ['VNever'], 'seed': r.randrange(10 ** 6)})
     cases.append({'md': 2, 'mn': 1, 'mx': 1, 'arg': None, 'nt': 1, 'v': ['VRootNot', 0], 'seed': 1})
     for md, mn, mx in [(3, 3, 2), (2, 4, 1), (1, 2, 1)]:
         cases.append({'md': md, 'mn': mn, 'mx': mx, 'arg': None, 'nt': 2, 'v': ['VAll'], 'seed': r.randrange(10 ** 6)})
-    for md, arg in [(3, 1), (4, 0), (2, 1), (5, 1)]:
+    for md, arg in [(3, 1), (4, 0), (2, 1), (5, 1), (6, 2), (1, 4), (2, 6)]:
         cases.append({'md': md, 'mn': 1, 'mx': 3, 'arg': arg, 'nt': 2, 'v': ['VAll'], 'seed': r.randrange(10 ** 6)})
     meta = eval_factory(ctx, 'random-graph', cases, canary=True)
     ctx.set_exhaustive('random-graph', False)
@@ -934,8 +935,8 @@ def run(ctx):
         'random.randint / random.choices / node_factory.get_node are choice oracles: choices are inferred from the '
         'observed attempt trees inside Coq (total node factory) or found by backtracking over the node factory log in '
         'the harness (partial node factory); distance_to_root_level modelled as recursion depth',
-        'the arity lower bound is claimed and checked for total node factories only; depth bound = max(effective '
-        'max_depth, 2) when requirements.max_depth > 1 (equals max_depth unless the override argument is 0 or 1)']
+        'the arity lower bound is claimed and checked for total node factories only; depth bound = the effective '
+        'max_depth (explicit override argument if truthy, else requirements.max_depth)']
     run_builder(ctx)
     run_generators(ctx)
 
